@@ -549,8 +549,9 @@ class NetworkGraph(AbstractBaseIR):
                 G = len(group)
                 rate_val = rates[slot_indices[0]]
 
-                # Build chain input: use source var directly when group covers all its elements
-                if sorted(src_indices) == list(range(n_src_var)):
+                # Build chain input: use source var directly when the group's slots are its elements in their own order
+                # (a permutation of all elements still needs explicit indexing)
+                if src_indices == list(range(n_src_var)):
                     chain_in = var
                 elif G == 1:
                     chain_in = f"index({var}, {src_indices[0]})"
